@@ -203,7 +203,7 @@ def check_value(acc, spec, thorough):
         acc.failure("C15:exception_mismatch:derived", {"f": shown}, repr(ex))
     # --- ljust / rjust ----------------------------------------------------------------------------
     for meth in ("ljust", "rjust"):
-        for w in range(0, n + 3):
+        for w in (range(0, n + 3) if n <= 60 else (0, n - 1, n, n + 1, n + 2, n + 17)):
             for fill in (None, "*"):
                 args = (w,) if fill is None else (w, fill)
                 label = "%s%r" % (meth, args)
@@ -273,7 +273,7 @@ def shard(args):
         for t in CR_TEXTS:
             for spec in C.cuts(t, max_runs=2):
                 check_value(acc, spec, thorough)
-    for si, spec in enumerate(C.exotic_specs()):
+    for si, spec in enumerate(C.exotic_specs() + C.huge_specs()):
         if si % nshards == idx:
             check_value(acc, spec, thorough)
     return acc.export()
